@@ -42,7 +42,8 @@ def run(ctx):
     # ---- correspondence
     n = ctx.n(4000, 200000)
     exh = ctx.n(3, 5)
-    rc, cases, e = sh2([exe, "corr", "-seed", str(ctx.seed), "-n", str(n), "-exh", str(exh)], timeout=3000)
+    nt = ctx.n(5000, 150000)
+    rc, cases, e = sh2([exe, "corr", "-seed", str(ctx.seed), "-n", str(n), "-nt", str(nt), "-exh", str(exh)], timeout=3000)
     if rc != 0:
         raise common.CheckError("harness corr failed: " + e[-1000:])
     lines = cases.splitlines()
@@ -56,7 +57,10 @@ def run(ctx):
     kinds = {}
     for l in lines:
         f = l.split("\t")
-        k = f[0] + ":" + (f[5] if f[0] == "L" else f[3] if f[0] == "X" else f[-1])
+        k = f[0] + ":" + (f[5] if f[0] == "L" else f[3] if f[0] in ("X", "T136", "T1", "T137", "T144", "D136", "D137", "D144", "P4", "P5")
+                          else f[4] if f[0] == "P1H" else f[5] if f[0] == "D1" else "?")
+        if f[0] in ("T136", "T1", "T137", "T144"):
+            k += "/decode:" + f[6]
         kinds[k] = kinds.get(k, 0) + 1
     ctx.notes["correspondence"] = {
         "cases": len(lines), "mismatches": len(mism), "distinct_cases": distinct,
@@ -74,7 +78,8 @@ def run(ctx):
     ctx.log("correspondence: %d cases, %d mismatches" % (len(lines), len(mism)))
     # ---- search: the property itself on the implementation
     ns = ctx.n(5000, 250000)
-    rc, so, e = sh2([exe, "search", "-seed", str(ctx.seed), "-n", str(ns), "-exh", str(exh)], timeout=3000)
+    nst = ctx.n(20000, 1000000)
+    rc, so, e = sh2([exe, "search", "-seed", str(ctx.seed), "-n", str(ns), "-nt", str(nst), "-exh", str(exh)], timeout=3000)
     if rc != 0:
         raise common.CheckError("harness search failed: " + e[-1000:])
     fails = []
